@@ -1223,8 +1223,9 @@ impl Connection {
                 Timer::PathValidation => {
                     debug!("path validation failed");
                     if let Some((_, prev)) = self.prev_path.take() {
-                        self.path = prev;
+                        let abandoned = mem::replace(&mut self.path, prev).generation();
                         self.drop_oversized_datagrams();
+                        self.requeue_sent_on_path(abandoned);
                         self.set_loss_detection_timer(now);
                     }
                     self.path.challenge = None;
@@ -3237,6 +3238,31 @@ impl Connection {
             Timer::PathValidation,
             now + 3 * cmp::max(self.pto(SpaceId::Data), prev_pto),
         );
+    }
+
+    /// Queue for retransmission everything still outstanding that was sent on path `generation`
+    ///
+    /// Once that path is gone, no path's in-flight counters cover these packets any more, so no
+    /// loss detection timer would be armed for them: unless later traffic happened to expose the
+    /// gap, their frames would never be sent again.
+    fn requeue_sent_on_path(&mut self, generation: u64) {
+        let space = SpaceId::Data;
+        let packets = self.spaces[space]
+            .sent_packets
+            .range(..)
+            .filter(|(_, info)| info.path_generation == generation)
+            .map(|(pn, _)| pn)
+            .collect::<Vec<_>>();
+        for pn in packets {
+            let Some(info) = self.spaces[space].take(pn) else {
+                continue;
+            };
+            self.remove_in_flight(&info);
+            for frame in info.stream_frames {
+                self.streams.retransmit(frame);
+            }
+            self.spaces[space].pending |= info.retransmits;
+        }
     }
 
     /// Discard queued datagrams that no longer fit in a packet on the current path
